@@ -205,6 +205,8 @@ def run(tier):
         bad.append(('dep_shape', [D['doc'][0]], [ScoringResult(sc0.tag_scores.copy(), np.zeros((len(D['doc'][0]), len(D['doc'][0])), dtype=np.float32))], D['cats']))
         bad.append(('tag_rows', [D['doc'][0]], [ScoringResult(np.zeros((len(D['doc'][0]) + 1, len(D['cats'])), dtype=np.float32), sc0.dep_scores.copy())], D['cats']))
         bad.append(('fewer_scores_than_sentences', [D['doc'][0], D['doc'][2]], [sc0], D['cats']))
+        bad.append(('more_scores_than_sentences', [D['doc'][0], D['doc'][2]], [sc0, D['scores'][2], D['scores'][1]], D['cats']))
+        bad.append(('one_sentence_two_scores', [D['doc'][0]], [sc0, type(sc0)(sc0.tag_scores.copy(), sc0.dep_scores.copy())], D['cats']))
         bad.append(('shorter_category_list', [D['doc'][0]], [sc0], D['cats'][:-1]))
         bad.append(('second_sentence_bad', [D['doc'][0], D['doc'][2]], [sc0, ScoringResult(np.zeros((1, len(D['cats'])), dtype=np.float32), np.zeros((1, 2), dtype=np.float32))] if len(D['doc'][2]) != 1 else [sc0, ScoringResult(np.zeros((2, len(D['cats'])), dtype=np.float32), np.zeros((2, 3), dtype=np.float32))], D['cats']))
         for name, doc, sc, cats in bad:
